@@ -83,7 +83,16 @@ CHECKS = {
         'oracle = exact log-sum-exp reference on the real code.',
    note=TB + 'A single slice along the reduced axis is returned without the dV factor (as coded); normalising an all -inf vector is unspecified.',
    technique='Lean 4 proof over LogP R (induction on lists) + differential correspondence with the Float instance',
-   design='5/C04'),
+   design='5/C04'), 'C18': dict(
+   text='Theorems for files and sample lists of any length: the parser returns one record per block with its stations, angles and weight '
+        'in file order (with or without the trailing blank line, weight inherited when a block has none); writing and reading back is the '
+        'identity; binning conserves total weight for any bin size, retains a sublist of the original records, merges only samples close '
+        '(every station within half a bin) to the retained one, leaves retained samples pairwise not mergeable, and is the identity for bin '
+        'size 0; sub-sampling returns records of the file. Tie: parse_scatangle (Python path), _output_scatangle and the binning command on '
+        'generated files (LF/CRLF, clusters that merge, patched RNG for sub-sampling) vs the executable model.',
+   note=TB + 'Lines reach the model already classified by token count; float() of tokens and universal-newline reading are trusted. All blocks list the same number of stations.',
+   technique='Lean 4 proof (fold invariants, list induction) + differential correspondence on real files',
+   design='5/C18'),
 }
 
 NOT_YET = 'check under construction in this session (model/theorems not yet committed)'
